@@ -328,11 +328,12 @@ fn probe_transports(srv: &TServer, tag: &str) -> Option<(String, String)> {
             other => return Some((format!("C10|transport|http-not-served|{}", tag), format!("HTTP probe {}: {:?}", attempt, other))),
         }
     }
-    match tcp_exchange(srv.tcp, b"use-db other-db otok\nset p t1\nget p\n", 300, 20_000) {
+    // (the probes wait for the expected answer, up to 30 s: slowness under load is not a finding)
+    match tcp_exchange_until(srv.tcp, b"use-db other-db otok\nset p t1\nget p\n", "value t1", 30_000) {
         Ok(out) if out.contains("value t1") => {}
         other => return Some((format!("C10|transport|tcp-not-served|{}", tag), format!("TCP probe: {:?}", other))),
     }
-    match ws_exchange(srv.ws, vec![Frame::Text("use-db other-db otok".into()), Frame::Text("set p w1".into()), Frame::Text("get p".into())], 400) {
+    match ws_exchange_until(srv.ws, vec![Frame::Text("use-db other-db otok".into()), Frame::Text("set p w1".into()), Frame::Text("get p".into())], "value w1", 30_000) {
         Ok(msgs) if msgs.iter().any(|m| m.contains("value w1")) => {}
         other => return Some((format!("C10|transport|ws-not-served|{}", tag), format!("WebSocket probe: {:?}", other))),
     }
